@@ -29,6 +29,27 @@ def packNonce (n : Nat) : Option Bytes := if n < NONCE_LIMIT then some (nonceByt
 /-- `PACK_LENGTH(length)`; `none` = `struct.error` (length ≥ 2^16) -/
 def packLength (n : Nat) : Option Bytes := if n < 65536 then some (leBytes 2 n) else none
 
+/-- Add one to a little-endian byte string in place, carrying as far as needed (all-0xFF wraps to all-zero):
+    what a nonce kept in a `bytearray` and bumped per frame must do to stay equal to `PACK_NONCE(count)`. -/
+def incLe : Bytes → Bytes
+  | [] => []
+  | x :: xs => if x = 255 then 0 :: incLe xs else (x + 1) :: xs
+
+/-- the 12-byte nonce bumped in place: the 4 leading bytes stay, the 8 counter bytes are incremented -/
+def bumpNonce (nb : Bytes) : Bytes := nb.take 4 ++ incLe (nb.drop 4)
+
+/-- the nonce of frame `n` when it is never packed afresh but bumped in place once per frame, from all-zero -/
+def bumped : Nat → Bytes
+  | 0 => nonceBytes 0
+  | n + 1 => bumpNonce (bumped n)
+
+/-- An in-place increment whose carry stops after ONE higher byte (an `if` where a loop is needed). NOT the
+    format; kept for the counterexample `C04_one_carry_counterexample`. -/
+def incLeOneCarry : Bytes → Bytes
+  | [] => []
+  | x :: xs =>
+    if x = 255 then 0 :: (match xs with | [] => [] | y :: ys => (y + 1) :: ys) else (x + 1) :: xs
+
 /-- A cipher object as the code sees it: `encrypt(nonce, data, aad)` / `decrypt(nonce, data, aad)`
     over byte strings (`none` = InvalidTag). -/
 structure BAead where
